@@ -17,7 +17,12 @@ def check(ctx):
                        "child_nurseries / child_tasks; to_thread/from_thread ping-pong of depth 0..2 from outside and inside; "
                        "any task may also install a greenback portal (action Ensure) and then waits for its commands in a "
                        "synchronous function through await_, so that its async frames and nursery blocks sit on a suspended "
-                       "greenlet's stack: the expected tree is unchanged")
+                       "greenlet's stack: the expected tree is unchanged. FromThread.tla models FOREIGN threads calling "
+                       "from_thread.run(afn, trio_token=...): message queued (no task yet: the Trio thread may be stuck in "
+                       "synchronous code), served by a system task (alternating d times through to_thread / re-entrant "
+                       "from_thread before it parks), returned, called again; extract(thread) from the Trio thread must be the "
+                       "thread's own frames (compared by identity with sys._current_frames) and, only while ITS call is being "
+                       "served, the serving task's frames afn, t(d) s(d) ... t(0) -- never another task's")
     ctx.assume("3.12 only (trio lives in the project venv)")
     r = ctx.tlc(run_tlc("TaskTree", "TaskTree.cfg", timeout=900), "tree evolutions, 4 tasks, exhaustive under VIEW")
     if not r.ok:
@@ -34,10 +39,26 @@ def check(ctx):
         if k not in seen:
             seen.add(k)
             behs.append({"acts": e["acts"]})
+    # foreign threads calling from_thread.run(..., trio_token=...): FromThread.tla
+    fr = ctx.tlc(run_tlc("FromThread", "FromThread.cfg", timeout=900, name="fromthread"), "foreign-thread calls, 3 threads, exhaustive under VIEW")
+    if not fr.ok:
+        ctx.violation(f"model (FromThread): {fr.violated}", fr.trace_text[-2000:])
+    require_coverage(fr, ["Call", "Block", "Unblock", "Serve", "Finish", "Observe"])
+    nf = 60 if ctx.tier == "quick" else 1200
+    fx = ctx.tlc(run_tlc("FromThread", "FromThread_export.cfg", workers=1, timeout=900, simulate=f"num={nf}", depth=16, seed=ctx.seed + 141,
+                         name="ftx"), "simulated foreign-thread behaviours for replay")
+    if not fx.ok or not fx.emitted:
+        raise MachineryError("no foreign-thread behaviours exported")
+    fseen, foreign = set(), []
+    for e in fx.emitted:
+        k = json.dumps(e["acts"], sort_keys=True)
+        if k not in fseen and any(a["a"] == "observe" for a in e["acts"]):
+            fseen.add(k)
+            foreign.append({"acts": e["acts"], "threads": ["A", "B"]})
     d = BUILD / "c14"
     d.mkdir(parents=True, exist_ok=True)
     bpath = d / "behaviours.json"
-    bpath.write_text(json.dumps({"behaviours": behs, "pingpong": x.emitted[0]["pingpong"]}))
+    bpath.write_text(json.dumps({"behaviours": behs, "pingpong": x.emitted[0]["pingpong"], "foreign": foreign}))
     opath = d / "out.json"
     p, _ = run([VENV_PY, str(VERIF / "harness/drivers/trio_driver.py"), str(bpath), str(opath)], timeout=1500, env=child_env("3.12"))
     if p.returncode != 0:
@@ -55,4 +76,9 @@ def check(ctx):
         if "harness" in b:
             raise MachineryError(b)
         ctx.violation(b, None)
+    ctx.replays += o["foreign_n"]
+    ctx.note("foreign_thread_behaviours", o["foreign_n"])
+    for mm in o["foreign"]:
+        ctx.violation("foreign thread in from_thread.run: " + "; ".join(mm["bad"]), mm)
     ctx.sample({"behaviour": behs[0]["acts"][:6]})
+    ctx.sample({"foreign_thread_behaviour": foreign[0]["acts"][:8]})
